@@ -1878,6 +1878,29 @@ class MultiSpeciesLattice(Lattice):
             pairs=new_pairs,
         )
 
+    def save_hdf5(self, hdf5_saver, h5gr, subpath):
+        """Export `self` into a HDF5 file.
+
+        In addition to the data saved by :meth:`Lattice.save_hdf5`, it saves
+        :attr:`simple_lattice`, :attr:`N_species`, :attr:`species_names` and :attr:`simple_Lu`
+        under these names.
+        """
+        super().save_hdf5(hdf5_saver, h5gr, subpath)
+        hdf5_saver.save(self.simple_lattice, subpath + 'simple_lattice')
+        hdf5_saver.save(self.N_species, subpath + 'N_species')
+        hdf5_saver.save(self.species_names, subpath + 'species_names')
+        hdf5_saver.save(self.simple_Lu, subpath + 'simple_Lu')
+
+    @classmethod
+    def from_hdf5(cls, hdf5_loader, h5gr, subpath):
+        """Load instance from a HDF5 file; see :meth:`save_hdf5`."""
+        obj = super().from_hdf5(hdf5_loader, h5gr, subpath)
+        obj.simple_lattice = hdf5_loader.load(subpath + 'simple_lattice')
+        obj.N_species = hdf5_loader.load(subpath + 'N_species')
+        obj.species_names = hdf5_loader.load(subpath + 'species_names')
+        obj.simple_Lu = hdf5_loader.load(subpath + 'simple_Lu')
+        return obj
+
     def _generate_new_pairs(self):
         N_sp = self.N_species
         names = self.species_names
